@@ -154,6 +154,8 @@ def u_assign_center(I):
             return Builtin(name, lambda I2, a, kw: FmtStr([name]) if name != 'GetIdx' else idx)
         if name == 'GetBonds':
             return Builtin('GetBonds', lambda I2, a, kw: [])
+        if name == 'GetAtomicNum':           # an arbitrary element per atom (any order of elements along the atom list: explicit [H][H] comes first)
+            return Builtin('GetAtomicNum', lambda I2, a, kw: z3.Function('atomic_number', IS, IS)(idx))
         return NotImplementedVal
     W_.abstract['AnnotatedMol'] = {'attr': amol_attr}
     W_.abstract['AnnotatedAtom'] = {'attr': aatom_attr}
